@@ -44,6 +44,10 @@ TOL = 1e-12
 
 POOL_KEYS = ["A", "B", "P", "R", "F", "C", "X"]
 EXTENDS = [["A", "B"], ["R", "F"], ["P", "C", "X"]]
+STARTS = [
+    ["extend:A,B", "add:P", "assemble"],   # an assembled system with mass-carrying contributions, then swap / reorder / re-assemble
+    ["add:X", "add:A", "add:B"],            # a registry in which a name collision has already been resolved
+]
 LETTERS = (
     [f"add:{k}" for k in POOL_KEYS]
     + ["assemble"]
@@ -73,6 +77,15 @@ def cases(tier, seed):
         out.append({"kind": "pair", "types": [a], "seed": seed})
     for a, b in itertools.permutations(names, 2):
         out.append({"kind": "pair", "types": [a, b], "seed": seed})
+    # start from non-initial states too: fixed legal start histories, then all continuations up to depth 3
+    for start in STARTS:
+        st = [LETTERS.index(x) for x in start]
+        for i in range(nl):
+            out.append({"kind": "hist", "depth": 1, "prefix": [i], "seed": seed, "nstates": 1, "start": st})
+        for d in (2, 3):
+            for i in range(nl):
+                for j in range(nl):
+                    out.append({"kind": "hist", "depth": d, "prefix": [i, j], "seed": seed, "nstates": 1, "start": st})
     hist(4)
     if tier != "quick":
         for i in range(nl):
@@ -503,7 +516,7 @@ def check(case):
     canon = set()
     nl = len(LETTERS)
     for tail in itertools.product(range(nl), repeat=depth - len(prefix)):
-        hist = prefix + list(tail)
+        hist = list(case.get("start", [])) + prefix + list(tail)
         local = []
         try:
             e, nt, oc = run_history(hist, case["seed"], case.get("nstates", 1), local, stats, case.get("legal_prefix_only", False))
